@@ -68,6 +68,7 @@ def errStr : ErrKind → String
   | .unknownEvent => "UnknownEvent"
   | .assertion => "AssertionError"
   | .invalidState => "InvalidState"
+  | .typeError => "TypeError"
   | .fuel => "Fuel"
 
 def resStr : Res → String
@@ -117,6 +118,17 @@ def handle (s : DState) : List String → DState × String
       let c := timerCfg a b (restartable == "b1") (if init == "-" then Gen.timerDefault else init)
       ({ cfg := c, st := {} }, "ok")
     | _, _ => (s, "bad-op")
+  | ["reset", "timerkw", tPeriod, tOn, tOff, restartable, init] =>
+    -- the constructor with its keyword arguments as given (`~` = not given)
+    let arg (x : String) : Option (Option Dur) := if x == "~" then some none else (parseDur x).map some
+    match arg tPeriod, arg tOn, arg tOff with
+    | some p, some a, some b =>
+      if restartable != "b0" && restartable != "b1" then (s, "bad-op") else
+      match timerNew { tPeriod := p, tOn := a, tOff := b } (restartable == "b1")
+          (if init == "-" then Gen.timerDefault else init) with
+      | .ok c => ({ cfg := c, st := {} }, "ok")
+      | .error k => (s, "err " ++ errStr k)
+    | _, _, _ => (s, "bad-op")
   | ["reset", "iexp", duration, expired, initdef] =>
     match parseDur duration, Val.parse expired, parseOptVal initdef with
     | some d, some e, some i => ({ cfg := inputExpCfg d e i, st := {} }, "ok")
